@@ -18,16 +18,17 @@ PX == <<47, 120>>           \* "/x"
 PZ == <<47, 122, 122>>      \* "/zz"
 
 \* kinds of file a -p argument can name
-FileKinds == { "addx", "replx", "testx", "rmzz", "empty", "notpatch", "malformed", "missing", "dir" }
-IsPatchFile(k) == k \in { "addx", "replx", "testx", "rmzz", "empty" }
+FileKinds == { "addx", "replx", "testx", "rmzz", "empty", "addpct", "notpatch", "malformed", "missing", "dir" }
+IsPatchFile(k) == k \in { "addx", "replx", "testx", "rmzz", "empty", "addpct" }
 OpsOf(k) ==
   CASE k = "addx"  -> << [op |-> "add", path |-> PX, value |-> N1] >>
     [] k = "replx" -> << [op |-> "replace", path |-> PX, value |-> N2] >>          \* does not commute with addx
     [] k = "testx" -> << [op |-> "test", path |-> PX, value |-> N1] >>             \* passes only after addx
+    [] k = "addpct" -> << [op |-> "add", path |-> <<47, 112>>, value |-> Str(<<49, 48, 48, 37, 32, 115, 37, 100>>)] >>   \* "100% s%d": output is data, not a format
     [] k = "rmzz"  -> << [op |-> "add", path |-> <<47, 107>>, value |-> N1], [op |-> "remove", path |-> PZ] >>  \* fails in its 2nd operation
     [] OTHER       -> << >>
 
-StdinDocs == { Obj(<<>>), Obj(<<Mem(cx, N0)>>), Arr(<<N1>>) }
+StdinDocs == { Obj(<<>>), Obj(<<Mem(cx, N0)>>), Arr(<<N1>>), Obj(<<Mem(<<37, 118>>, Str(<<37, 37, 32, 37, 115>>))>>) }
 DefaultOpts == [neg |-> TRUE, limit |-> 0, allow |-> FALSE, ensure |-> FALSE, esc |-> TRUE]
 
 VARIABLES args,     \* the -p arguments in command-line order
